@@ -35,8 +35,10 @@ def replay_load(run, cases, trace_module, trace_cfg, build_features=("json",), v
             rows.append({"case": i + 1, "mode": "value", "s": c["s"]})
             continue
         d = os.path.join(wd, "p%05d" % (i + 1))
-        vp.materialise(c, d, fmt=fmt, perm_seed=perm_seed, ext=ext)
-        rows.append({"case": i + 1, "mode": "load", "dir": d, "skip_icu": skip_icu})
+        # a case may place the crate in a sub-directory of its own directory (so that `locales-dir = "../x"` stays inside the case)
+        d_crate = os.path.join(d, c["root"]) if c.get("root") else d
+        vp.materialise(c, d_crate, fmt=fmt, perm_seed=perm_seed, ext=ext)
+        rows.append({"case": i + 1, "mode": "load", "dir": d_crate, "skip_icu": skip_icu})
     cases_path = os.path.join(wd, "cases.ndjson")
     # the trace spec only needs the abstract part of a case
     vp.write_ndjson(cases_path, [{"id": c["id"], "abs": c.get("abs")} for c in cases])
